@@ -691,6 +691,16 @@ func TestZZReplay(t *testing.T) {
 		os.WriteFile(listFile, lb, 0o644)
 		cmd := exec.Command("go", "test", "-vet=off", "-count=1", "-run", "^TestZZReplay$", "-overlay", ovFile, "-timeout", "600s", ".")
 		cmd.Dir = pkgDir
+		if cfg.Dir == "synthetic" {
+			sd, err := syntheticModule()
+			if err != nil {
+				return nil, err
+			}
+			defer os.RemoveAll(sd)
+			cmd = exec.Command("go", "test", "-vet=off", "-count=1", "-run", "^TestZZReplay$", "-overlay", ovFile, "-timeout", "600s",
+				"github.com/MinterTeam/mhub2/"+overlayDirs[sub])
+			cmd.Dir = sd
+		}
 		cmd.Env = append(os.Environ(), "GOFLAGS=-mod=mod", "GOPROXY=off", "GOSUMDB=off", "GOTOOLCHAIN=local", "ZZ_REPLAY_LIST="+listFile, "ZZ_REPLAY_OUT="+outFile)
 		if os.Getenv("ZZ_DEBUG") != "" {
 			cmd.Args = append(cmd.Args[:2], append([]string{"-v"}, cmd.Args[2:]...)...)
